@@ -79,7 +79,7 @@ def gen(S, tier):
         else:
             q = w.pick(["has", "has_any", "get", "get_all", "prio"])
             ops.append(["q_" + q, w.randrange(3), w.randrange(max(1, n_listeners))])
-    sc = {"ops": ops}
+    sc = {"ops": ops, "event_kind": S("config").weighted([(None, 6), ("own_state", 2), ("plain_object", 1)])}
     if S("config").chance(0.2):
         sc["lanes"] = [w.randrange(2) for _ in range(8)]
     return sc
@@ -261,6 +261,17 @@ def execute(sc):
     log = res.events
     d = EventDispatcher()
 
+    class _ResultEvent(Event):
+        def __init__(self):
+            Event.__init__(self)
+            self.result = None
+
+        def is_propagation_stopped(self):
+            return self.result is not None
+
+    if sc.get("event_kind"):
+        res.probe("event_object_of_kind_" + sc["event_kind"])
+
     regs = []          # model: dicts {event, prio, seq, lid}
     listeners = []     # lid -> (callable, behaviour, extra)
     calls = []         # flat log of (dispatch_id, lid)
@@ -291,7 +302,10 @@ def execute(sc):
                 raise _Runaway()
             log.append(("call", stack[-1] if stack else -1, lid))
             if behaviour == "stop":
-                event.stop_propagation()
+                if isinstance(event, _ResultEvent):
+                    event.result = lid
+                else:
+                    event.stop_propagation()
             elif behaviour == "raise":
                 res.fault("listener_raises")
                 raise _Abort("listener %d" % lid)
@@ -316,7 +330,14 @@ def execute(sc):
         raised = None
         log.append(("dispatch", did, ev))
         try:
-            d.dispatch(EVENTS[ev])
+            if sc.get("event_kind") == "own_state":
+                # an application-defined event that decides itself when it is done (a public method
+                # to override): it stops once a listener has produced a result
+                d.dispatch(EVENTS[ev], _ResultEvent())
+            elif sc.get("event_kind") == "plain_object":
+                d.dispatch(EVENTS[ev], Event())
+            else:
+                d.dispatch(EVENTS[ev])
         except _Abort as e:
             raised = e
         except _Runaway:
